@@ -352,6 +352,9 @@ class Check:
                         self.known_hits[signature] = dict(count=0, what=f.get("description", what), example=replay_obj)
                     self.known_hits[signature]["count"] += 1
                     return False
+        if signature is not None:
+            self.extra.setdefault("violation_signatures", {})
+            self.extra["violation_signatures"][signature] = self.extra["violation_signatures"].get(signature, 0) + 1
         n = len(self.violations)
         path = os.path.join(REPLAYS, "%s-%d-%d.json" % (self.pid, SEED, n))
         if n < 20:
